@@ -128,9 +128,12 @@ inductive OnErr where
   | raise | warn | ignore
 deriving DecidableEq, Repr
 
-/-- `ComputeScore.__call__`; `none` = the exception propagates (`on_trial_error='raise'`) -/
+/-- `ComputeScore.__call__`; `none` = the exception propagates (`on_trial_error='raise'`).
+    `postEnsure` = whether `ComputeScore.__call__` itself calls
+    `ensure_basic_quantities_are_computed(trial)` after scoring (source-derived fact; `false` on
+    the tree as found, `true` after the proposed repair of DESIGN 7f). -/
 def computeScore {τ : Type} (ops : TreeOps τ) (ws : List Wrapper) (obj : Objective τ)
-    (onErr : OnErr) (raw : Raw τ) : Option (RDict τ) :=
+    (postEnsure : Bool) (onErr : OnErr) (raw : Raw τ) : Option (RDict τ) :=
   let onException : Option (RDict τ) := if onErr = .raise then none else some failRec
   match raw with
   | .badTrial => some failRec
@@ -142,8 +145,9 @@ def computeScore {τ : Type} (ops : TreeOps τ) (ws : List Wrapper) (obj : Objec
       match obj.call ops d with
       | none => onException
       | some (d', sc) =>
-        some { score := sc, flops := d'.flops.map some, write := d'.write.map some,
-               size := d'.size.map some, tree := some d'.tree }
+        let d'' := if postEnsure then ensureBasic ops d' else d'
+        some { score := sc, flops := d''.flops.map some, write := d''.write.map some,
+               size := d''.size.map some, tree := some d''.tree }
 
 /-- the reads `trial["flops"]`, `trial["write"]`, `trial["size"]` of `_maybe_report_result`:
     `none` = `KeyError` -/
